@@ -69,7 +69,10 @@ PduAt(b, p, e) ==
                 cls == MaxC(MaxC(MaxC(LenClass(h), LenClass(h1)), MaxC(LenClass(h2), LenClass(h3))),
                             MaxC(MaxC(LenClass(h4), i1.c), MaxC(MaxC(i2.c, i3.c), vs.c)))
                 trailingTop == IF h.nx # e + 1 THEN Reject ELSE Accept
-            IN [c |-> MaxC(cls, trailingTop), why |-> IF trailingTop = Reject THEN "trailing-after-pdu" ELSE vs.why,
+                \* request PDUs conventionally bind every name to NULL; another value is tolerated or refused
+                reqVals == IF h.tag \in {PduGet, PduGetNext, PduGetBulk}
+                              /\ \E i \in 1..Len(vs.vbs) : vs.vbs[i].val.vt # "null" THEN Lenient ELSE Accept
+            IN [c |-> MaxC(MaxC(cls, reqVals), trailingTop), why |-> IF trailingTop = Reject THEN "trailing-after-pdu" ELSE vs.why,
                 pdu |-> [ptype |-> h.tag, reqid |-> i1.v, f2 |-> i2.v, f3 |-> i3.v, vbs |-> vs.vbs]]
 
 Zero == [neg |-> FALSE, mag |-> <<>>]
